@@ -5,7 +5,7 @@ CONSTANTS
   MaxScalars = 2
   MaxArrays = 2
   MaxOps = 4
-VIEW View
+VIEW ViewD
 INVARIANT FaithfulInv
 INVARIANT TilesInv
 INVARIANT ScalarAreaInv
